@@ -92,7 +92,9 @@ def run(scn, loop):
         gc.collect()
         alive = Ctx.alive
         objs = len(gc.get_objects())
-        grew = i >= 3 and objs > prev
+        # heap growth is judged in the second half of a long run only: warm-up of per-method caches and any BOUNDED
+        # cache a change might introduce have saturated by then; what is left grows with the number of requests
+        grew = scn['n'] >= 50 and i >= scn['n'] // 2 and objs > prev
         prev = objs
         ev.append({'ev': 'Served', 'alive': alive, 'grew': bool(grew), 'ok': ok})
     return {'scn': scn, 'ev': ev}
